@@ -98,6 +98,8 @@ def c14(tier):
             p["big"] = True
         if i % 80 == 77:
             p["huge"] = True  # 16 runs of the quick tier: more than 256 points in one observable
+        if i % 32 == 13:
+            p["manyq"] = True  # 40-80 points on 34-60 distinct Q2 at leading order, usually with a twin observable
         if i % 12 == 9:
             p.update(many=True, max_pto=1, max_ops=16 if quick else 22)  # four to six live runners
         if not quick and i % 4 == 2:
